@@ -183,6 +183,15 @@ def discharge(crate, sub, bi, kind, cs):
             if r[0] == "call" and r[1] in ("unwrap_or", "unwrap_or_else", "unwrap_or_default") and r[3]:
                 alt_ok = len(r[3]) < 2 or boundary_of(r[3][1], depth + 1) or (isinstance(strip_role(r[3][1]), tuple) and strip_role(r[3][1])[0] == "const" and const_int(strip_role(r[3][1])[1]) == 0)
                 return boundary_of(r[3][0], depth + 1) and alt_ok
+            if r[0] == "call" and r[1] == "map_or" and len(r[3]) >= 3:
+                # `find(..).map_or(s.len(), |(i, _)| i)`: the offset component of the found item, or the length
+                cl_ = strip_role(r[3][2])
+                cb_ = crate.bodies.get(cl_[1]) if isinstance(cl_, tuple) and cl_[0] == "agg" else None
+                if cb_ is None:
+                    return False
+                rr_ = strip_role(cb_.role_of_local(0))
+                comp0 = isinstance(rr_, tuple) and rr_[0] == "field" and rr_[2] == "0" and isinstance(rr_[1], tuple) and rr_[1][0] == "param"
+                return comp0 and boundary_of(r[3][0], depth + 1) and boundary_of(r[3][1], depth + 1)
             if r[0] in ("variant", "field"):
                 return boundary_of(r[1], depth + 1)
             if r[0] == "phi":
